@@ -23,3 +23,9 @@ claim("C18", "model_checking", "bounded-exhaustive enumeration of (segment, term
 claim("C08", "model_checking", "bounded-exhaustive enumeration of (segment, field, key range, automaton) on the real dictionary vs model",
       "All 4^5 term-set assignments (built and self-merged, so every 1-hit/general/absent pattern over consecutive terms occurs) and every MERGE(k=2) output with deletions; for every field (known, unknown) every [start,end) over a 12-key bound set x automata: entries, byte order, entry counts, end-stays-end, Contains and PostingsList agree with the model.",
       TRUST + " Harness automata implement segment.Automaton; vellum's automaton handling is exercised as part of the system under test.", "DESIGN.md 5 C08", E1)
+claim("C06", "model_checking", "bounded-exhaustive enumeration of stored-field shapes, forms and visit histories on the real reader vs model",
+      "STORED-S/MIX batches in five forms (built, loaded mem/file, merged by block copy, merged by re-encode): every document, out-of-range numbers and every early-stop index; STORED-B two-block family whose decompressed block sizes sweep +-33 bytes around equality with six short last-record shapes: every sequence of <=3 visits on a cold-cache copy. Delivered (field,value) lists equal the model's; nothing after false; nothing for n>=Count; no panic.",
+      TRUST, "DESIGN.md 5 C06", E1 + " / " + E2)
+claim("C07", "model_checking", "bounded-exhaustive enumeration of doc-value shapes, field lists and visiting orders on the real reader vs model",
+      "DV-S batches (built, self-merged): every ordered subset of {a,b,d,unknown} x every visiting order <=3 with one reader; DV-C families crossing the 1024-document chunk boundary (8 placement patterns, built/loaded/merged with renumbering): every order <=3 (thorough <=4) over the documents of interest; inconsistent per-segment flags with a per-source oracle.",
+      TRUST, "DESIGN.md 5 C07", E1 + " / " + E2)
